@@ -794,6 +794,10 @@ package raft
 //@   at call r.log.Compact assume [A-IS-COMMITTED] inLog(X)
 //@   at call r.snapshotStorage.SnapshotFile assert [IS.discard-only-on-mismatch] !(inLog(X) && Lterm[X] == T)
 //@   at call r.log.DiscardEntries assert [IS.discard-args] arg0 == X && arg1 == T
+// F33 repaired: when the whole log is discarded, a configuration that was adopted from one of the
+// discarded entries (never committed) must not stay in force: the handler falls back to the
+// committed configuration before it looks at the snapshot's.
+//@   at call r.applyConfiguration assert [IS.discard-fallback] r.committedConfiguration != nil ==> r.configuration.Index <= r.committedConfiguration.Index
 //@   at before-assign r.lastApplied assert [IS.applied-monotone] newval >= r.lastApplied
 //@   at before-assign r.commitIndex assert [IS.commit-monotone] newval >= r.commitIndex
 //@   at before-assign r.lastIncludedIndex assert [IS.included-monotone] newval > r.lastIncludedIndex && newval == X
